@@ -79,6 +79,19 @@ Theorem write_new_file_fault_safe :
 Proof. exact write_new_file_fault_safe_proof. Qed.
 Print Assumptions write_new_file_fault_safe.
 
+(* the current pdfcpu.WriteContext file path: safe for every ending of the body, panic included *)
+Theorem write_context_fault_safe : forall fresh,
+  (forall m, m !! fresh m = None) ->
+  forall pl fin, one_cause pl fin ->
+  forall path chunks m0 tr r w',
+  pdf_staged pl fresh KFlag None path chunks fin (W m0 0 tr) = (r, w') -> r <> COk ->
+  unchanged m0 (wfs w').
+Proof. exact write_context_fault_safe_proof. Qed.
+Print Assumptions write_context_fault_safe.
+
+(* the three refuted statements below are about the ABSTRACT err-keyed / shadowed-err / undeferred
+   skeletons (what MergeCreateFile, MergeCreateZipFile, WriteContext, WriteContextFile looked like before
+   fixes ab14e02e / 4c8f77e6); the table theorem below shows no function has the first two shapes any more *)
 Theorem write_context_panic_refuted :
   exists r w', pdf_staged nofault fresh_path KErr None 2%positive [[1%N]] CPanic (W refute_m0 0 []) = (r, w') /\
     r = CPanic /\ wfs w' !! 2%positive = Some (File [1%N] mode_new) /\ ~ unchanged refute_m0 (wfs w').
@@ -111,7 +124,7 @@ Proof. exact staged_fault_safe_proof. Qed.
 Print Assumptions staged_fault_safe.
 
 (* all_file_functions_safe: in the table regenerated from the Go sources, every function that writes one
-   output through a staging helper and is not in the list of reported defects (panic_unsafe) keys its
+   output through a staging helper and is not one of the four undeferred functions (panic_unsafe) keys its
    deferred decision on a completion flag; so api_staged_fault_safe* / pdf_staged_fault_safe apply to it
    with k = KFlag for every ending of the body, panic included *)
 Theorem all_file_functions_safe :
@@ -120,9 +133,9 @@ Theorem all_file_functions_safe :
 Proof. exact all_file_functions_safe_proof. Qed.
 Print Assumptions all_file_functions_safe.
 
-(* every single-output function except pdfcpu.WriteContext is at least fault- and error-safe *)
+(* every single-output function is at least fault- and error-safe (empty exception list) *)
 Theorem all_file_functions_fault_safe :
-  forall r, In r table -> single_output r = true -> name_in error_unsafe r = false ->
+  forall r, In r table -> single_output r = true ->
   exists k, key_of_dkey (f_key r) = Some k /\ forall fin, fin <> CPanic -> safe_for k fin.
 Proof. exact all_file_functions_fault_safe_proof. Qed.
 Print Assumptions all_file_functions_fault_safe.
@@ -139,5 +152,7 @@ Example C01_table_nonvacuous :
   existsb (fun r => String.eqb (f_name r) "TrimFile" && dkey_eqb (f_key r) DFlag) table = true /\
   existsb (fun r => String.eqb (f_name r) "MergeAppendFile" && dkey_eqb (f_key r) DFlag) table = true /\
   existsb (fun r => String.eqb (f_name r) "writeCutOutputWith" && dkey_eqb (f_key r) DFlag) table = true /\
+  existsb (fun r => String.eqb (f_name r) "WriteContext" && dkey_eqb (f_key r) DFlag) table = true /\
+  existsb (fun r => String.eqb (f_name r) "MergeCreateFile" && dkey_eqb (f_key r) DFlag) table = true /\
   60 <= length (filter single_output table).
 Proof. exact table_nonvacuous_proof. Qed.
